@@ -398,3 +398,10 @@ Print Assumptions c11_finish_flush_order.
 Theorem c11_pipe_exactly_once : forall l, pi_got (pi_run l) ++ pi_buf (pi_run l) = written l.
 Proof. exact pipe_exactly_once. Qed.
 Print Assumptions c11_pipe_exactly_once.
+
+(* the exit status that decides `expected`: the child's own, 0..255, never folded; -1 for signal deaths *)
+Theorem c11_exit_status_true : forall n (core : bool), 0 <= n < 256 ->
+  wait_exit_status (n * 256) = n /\
+  forall sig, 0 < sig < 128 -> wait_exit_status (n * 256 + (if core then 128 else 0) + sig) = -1.
+Proof. exact exit_status_true. Qed.
+Print Assumptions c11_exit_status_true.
